@@ -626,10 +626,39 @@ where
             VecOp::FaultLenFieldThenRollback(field, val) => {
                 let p = self.changes_dir().join(self.model.stamp.to_string());
                 if let Ok(mut b) = fs::read(&p) {
-                    let off = field * 8;
-                    if off + 8 <= b.len() {
-                        b[off..off + 8].copy_from_slice(&val.to_le_bytes());
-                        let _ = fs::write(&p, &b);
+                    // walk the record to find its length fields (an arbitrary 8-byte
+                    // window may be value data, whose damage nothing could detect)
+                    let sz = size_of::<V::T>();
+                    let rd = |b: &[u8], o: usize| -> Option<usize> {
+                        b.get(o..o + 8)
+                            .map(|s| u64::from_le_bytes(s.try_into().unwrap()) as usize)
+                    };
+                    let mut fields = vec![8usize, 24];
+                    let walk = || -> Option<()> {
+                        let mut o = 24;
+                        let truncated = rd(&b, o)?;
+                        o += 8 + truncated.checked_mul(sz)?;
+                        fields.push(o); // prev_pushed_len
+                        let n = rd(&b, o)?;
+                        o += 8 + n.checked_mul(sz)?;
+                        fields.push(o); // pushed_len
+                        let n = rd(&b, o)?;
+                        o += 8 + n.checked_mul(sz)?;
+                        if V::RAW {
+                            fields.push(o); // modified_len
+                            let n = rd(&b, o)?;
+                            o += 8 + n.checked_mul(8 + sz)?;
+                            fields.push(o); // prev_holes_len
+                        }
+                        Some(())
+                    };
+                    let mut walk = walk;
+                    let _ = walk();
+                    if let Some(&off) = fields.get(*field) {
+                        if off + 8 <= b.len() {
+                            b[off..off + 8].copy_from_slice(&val.to_le_bytes());
+                            let _ = fs::write(&p, &b);
+                        }
                     }
                 }
                 self.vec_mut().rollback().map(|_| String::new()).map_err(e)
@@ -1151,7 +1180,7 @@ where
                     if rec_len > 0 {
                         v.push(VecOp::FaultTruncateThenRollback(rec_len - 1));
                     }
-                    for field in [1usize, 3, 4] {
+                    for field in 0usize..6 {
                         for val in [1u64 << 32, 1u64 << 63, u64::MAX, 1_000_003] {
                             v.push(VecOp::FaultLenFieldThenRollback(field, val));
                         }
@@ -1194,7 +1223,7 @@ where
         );
         let is_fault = kind.starts_with("fault_");
         let content_prop: &str = if is_fault {
-            "C16"
+            "C16,C17"
         } else if is_rollback_kind || self.model.stored_uncertain || self.model.commits_done > 0 {
             "C04"
         } else if V::COMPRESSED {
@@ -1203,6 +1232,7 @@ where
             "C03"
         };
 
+        let pre_records_target = self.model.records.get(&self.model.stamp).cloned();
         let result = guarded(|| self.exec(op));
         let mut expected = self.model_apply(cfg, op, ix).map_err(|e| e.to_string());
 
@@ -1214,7 +1244,7 @@ where
                 let loc = panic.split(": ").next().unwrap_or("?").to_string();
                 viols.push(Violation {
                     property: if expected.is_err() {
-                        if is_fault { "C16".into() } else { "C13".into() }
+                        if is_fault { "C16,C17".into() } else { "C13".into() }
                     } else {
                         content_prop.to_string()
                     },
@@ -1227,19 +1257,11 @@ where
                 };
             }
         };
-        if !check {
-            return Step {
-                obs: 0,
-                violations: viols,
-            };
-        }
-        let pre_model = pre_model.unwrap();
-
         // A damaged change record: error + no effect expected; success tolerated only if
         // it lands exactly on the record's true target.
         if matches!(&expected, Err(x) if x == "?damaged") {
             if result.is_ok() {
-                let target = pre_model.records.get(&pre_model.stamp).cloned().unwrap();
+                let target = pre_records_target.clone().unwrap();
                 self.model.restore(&target);
                 if self.model.chain.len() > 1 {
                     if self.model.chain.pop().is_some_and(|s| s.truncating) {
@@ -1253,6 +1275,14 @@ where
                 expected = Err("*".into());
             }
         }
+
+        if !check {
+            return Step {
+                obs: 0,
+                violations: viols,
+            };
+        }
+        let pre_model = pre_model.unwrap();
 
         // rollback_before when no change record exists at all: the statement does not say
         // whether that is "nothing to do" or an error; accept an error without effect.
@@ -1278,14 +1308,14 @@ where
                     && !(x == "Different" && e.starts_with("Different"))
                 {
                     viols.push(Violation {
-                        property: if is_fault || is_rollback_kind { "C16" } else { "C13" }.into(),
+                        property: if is_fault { "C16,C17" } else if is_rollback_kind { "C16" } else { "C13" }.into(),
                         signature: sig(&format!("error_variant:{e}")),
                         detail: format!("expected error {x}, got {e}"),
                     });
                 }
             }
             (Ok(_), Err(x)) => viols.push(Violation {
-                property: if is_fault || is_rollback_kind { "C16" } else { "C13" }.into(),
+                property: if is_fault { "C16,C17" } else if is_rollback_kind { "C16" } else { "C13" }.into(),
                 signature: sig("accepted"),
                 detail: format!("request should have failed ({x}) but succeeded"),
             }),
@@ -1298,7 +1328,7 @@ where
 
         // --- a refused / failed request has no effect (C13; C16 for rollbacks)
         if expected.is_err() && result.is_err() {
-            let prop = if is_fault || is_rollback_kind { "C16" } else { "C13" };
+            let prop = if is_fault { "C16,C17" } else if is_rollback_kind { "C16" } else { "C13" };
             let now = self.observe().ok();
             if now != pre_obs {
                 viols.push(Violation {
